@@ -49,9 +49,30 @@ Ltac py_stuck_hook h ::=
   | py_index (PList (map ?g ?l)) (PInt (Z.of_nat ?k)) => rewrite (py_index_map_ofnat g l k)
   end.
 
-Definition scan_env {A} (g : A -> pv) (self : pv) (st : scan_st A) : env :=
-  ([("self", self); ("j", PInt (fst (fst st))); ("k", PInt (Z.of_nat (snd (fst st))))]
-     ++ match snd st with Some (i, y) => [("i", PInt (Z.of_nat i)); ("_", g y)] | None => [] end)%list.
+(** The loop state of the scan, with all names read off the AST of the method
+    ([scan_names], evaluated inside [write_request]): [vs] the receiver, [pre]
+    the locals assigned in front of the loop IN THEIR ORDER (the counter and
+    the index, whichever comes first), [cnt] which of them is the counter (the
+    one the loop body increments), [vi]/[vy] the two loop variables.  Nothing
+    is said about locals that appear after the loop (single-use temporaries
+    may come and go). *)
+Record scan_names := mkScanNames
+  { sn_self : string; sn_pre : list string; sn_cnt : string; sn_i : string; sn_y : string }.
+
+Definition scan_names_of (f : func) : scan_names :=
+  mkScanNames (param0 f) (assigned_before_for (f_body f))
+    (match first_aug_ss (loop_body f) with Some x => x | None => "" end)
+    (fst (loop_pair f)) (snd (loop_pair f)).
+
+Definition scan_env {A} (nm : scan_names) (g : A -> pv) (self : pv) (st : scan_st A) : env :=
+  ((sn_self nm, self)
+     :: map (fun x => (x, if String.eqb x (sn_cnt nm) then PInt (fst (fst st)) else PInt (Z.of_nat (snd (fst st)))))
+            (sn_pre nm)
+     ++ match snd st with Some (i, y) => [(sn_i nm, PInt (Z.of_nat i)); (sn_y nm, g y)] | None => [] end)%list.
+
+(** [scan_env] on literal names, as a concrete association list *)
+Ltac scan_env_lit :=
+  cbn [scan_env sn_self sn_pre sn_cnt sn_i sn_y map app fst snd String.eqb Ascii.eqb Bool.eqb].
 
 Definition scan_inv {A} (len : nat) (rem : list (nat * A)) (st : scan_st A) : Prop :=
   forall i y, In (i, y) rem -> (i < len)%nat.
@@ -142,12 +163,13 @@ Ltac split_bools a b :=
   | _ => idtac
   end.
 
-Ltac write_request g eqb d new now c cm flags rxp chans w its request srcw :=
+Ltac write_request f g eqb d new now c cm flags rxp chans w its request srcw :=
+  let nm := eval cbv in (scan_names_of f) in
   let Hlen := fresh "Hlen" in
   intros Hlen; pystart; pysteps; rewrite enumerate_map;
-  loop_env (scan_env g (comm c (dev_obj' cm flags rxp chans) w (map item_pv its)) ((0, O), @None (nat * _)));
+  loop_env (scan_env nm g (comm c (dev_obj' cm flags rxp chans) w (map item_pv its)) ((0, O), @None (nat * _)));
   rewrite (for_loop_fold_inv (scan_inv (List.length now))
-             (scan_env g (comm c (dev_obj' cm flags rxp chans) w (map item_pv its)))
+             (scan_env nm g (comm c (dev_obj' cm flags rxp chans) w (map item_pv its)))
              (fun kv => PTuple [PInt (Z.of_nat (fst kv)); g (snd kv)])
              (scan_step eqb d new now));
   [ let HF := fresh "HF" in
@@ -158,7 +180,7 @@ Ltac write_request g eqb d new now c cm flags rxp chans w its request srcw :=
     let j' := fresh "j'" in let k' := fresh "k'" in let Hs := fresh "Hs" in let Ej := fresh "Ej" in
     destruct (fold_left _ _ _) as [[jz kk] o]; cbn [fst] in HF;
     destruct (Config.diff_scan _ _ _ _ _ _) as [j' k'] eqn:Hs; cbn [fst snd] in HF; inversion HF; subst jz kk; clear HF;
-    unfold scan_env; cbn [fst snd];
+    scan_env_lit;
     destruct (Nat.eqb j' 1) eqn:Ej;
     [ let HjZ := fresh "HjZ" in let Hk := fresh "Hk" in let Hk' := fresh "Hk'" in let Hn := fresh "Hn" in
       assert (HjZ : (Z.of_nat j' =? 1) = true) by lia;
@@ -180,7 +202,7 @@ Ltac write_request g eqb d new now c cm flags rxp chans w its request srcw :=
     pose proof (nth_error_nth_lt now i d Hi) as Hw;
     assert (Hi' : (i < List.length new)%nat) by lia;
     pose proof (nth_error_nth_lt new i d Hi') as Hn;
-    unfold scan_env, scan_step; cbn [fst snd app];
+    unfold scan_step; scan_env_lit;
     set (a := nth i new d) in *; set (b := nth i now d) in *;
     clearbody a b; split_bools a b; destruct o as [[? ?]|]; cbn [app]; pyrun
   | let i := fresh "i" in let y := fresh "y" in let Hin := fresh "Hin" in
@@ -191,14 +213,14 @@ Lemma nxslib_channels_enable_func n c cm flags rxp chans w its :
   call_func program (S (S (S (S (S n))))) CommHandler__nxslib_channels_enable
     [comm c (dev_obj' cm flags rxp chans) w (map item_pv its)] [] =
   emb_wres cm flags rxp (src_write_enable cm flags c chans w its).
-Proof. write_request PBool Bool.eqb false (Config.en_new c) (Config.en_now c) c cm flags rxp chans w its en_request src_write_enable. Qed.
+Proof. write_request CommHandler__nxslib_channels_enable PBool Bool.eqb false (Config.en_new c) (Config.en_now c) c cm flags rxp chans w its en_request src_write_enable. Qed.
 
 Lemma nxslib_channels_div_func n c cm flags rxp chans w its :
   List.length (Config.div_new c) = List.length (Config.div_now c) ->
   call_func program (S (S (S (S (S n))))) CommHandler__nxslib_channels_div
     [comm c (dev_obj' cm flags rxp chans) w (map item_pv its)] [] =
   emb_wres cm flags rxp (src_write_div cm flags c chans w its).
-Proof. write_request PInt Z.eqb 0 (Config.div_new c) (Config.div_now c) c cm flags rxp chans w its div_request src_write_div. Qed.
+Proof. write_request CommHandler__nxslib_channels_div PInt Z.eqb 0 (Config.div_new c) (Config.div_now c) c cm flags rxp chans w its div_request src_write_div. Qed.
 
 
 Definition nxslib_channels_enable_func_r n a b c d e f := nxslib_channels_enable_func n (Config.mkCli a b c d e f).
